@@ -48,6 +48,8 @@ P_ABCOLOR = "{http://inf-it.com/ns/ab/}addressbook-color"
 P_COMMENT = "{DAV:}comment"
 P_CALDATA = "{urn:ietf:params:xml:ns:caldav}calendar-data"
 P_ADDRDATA = "{urn:ietf:params:xml:ns:carddav}address-data"
+P_RT_CAL = "{urn:ietf:params:xml:ns:caldav}calendar"
+P_RT_AB = "{urn:ietf:params:xml:ns:carddav}addressbook"
 
 
 def proppatch(sets=(), removes=()):
